@@ -146,11 +146,28 @@ def agree(row, ref, c):
 
 
 # ------------------------------------------------------------------ per-instruction grid
-def grid_module(ctx, h, tag, rows, mode, flavours, dist, nontrivial, samples, text_fn=None, pages=1, maxpages=1, calls_fn=None):
-    """translate + compile one module class, run the grid on wazero and on every C flavour, report disagreements.
-    Returns (Mod, calls, ref lines, {flavour: lines})."""
+def grid_exec(ctx, h, tag, rows, mode, flavours, text_fn=None, pages=1, maxpages=1, calls_fn=None):
+    """translate + compile one module class, run the grid on wazero and on every C flavour (flavours in parallel). No bookkeeping
+    on ctx: several module classes run concurrently.  Returns (Mod, calls, ref lines, {flavour: lines})."""
     text_fn = text_fn or R.module_text
     m = prepare_module(ctx, h, tag, rows, text_fn, pages, maxpages)
+    calls = []
+    for r in m.rows:
+        for args in (calls_fn or R.calls_for)(r, ctx.tier):
+            calls.append((r, args))
+    with cf.ThreadPoolExecutor(len(flavours) + 1) as pool:
+        fref = pool.submit(run_ref, ctx, h, m, calls, mode)
+        fouts = dict((fl, pool.submit(lambda fl=fl: run_c(m, build_flavour(m, fl), calls, mode))) for fl in flavours)
+        ref = fref.result()
+        outs = dict((fl, f.result()) for fl, f in fouts.items())
+    m.exes = dict((f, "drv_" + f.replace("-", "_")) for f in flavours)
+    return m, calls, ref, outs
+
+
+def grid_report(ctx, tag, res, flavours, dist, nontrivial, samples, text_fn=None):
+    """bookkeeping for one executed module class: excluded rows, disagreements, samples"""
+    text_fn = text_fn or R.module_text
+    m, calls, ref, outs = res
     for name, (why, r) in sorted(m.excluded.items()):
         if why.startswith("wat2c: err"):
             dist["rows_outside_wat_parser"] = dist.get("rows_outside_wat_parser", 0) + 1
@@ -160,16 +177,6 @@ def grid_module(ctx, h, tag, rows, mode, flavours, dist, nontrivial, samples, te
         else:
             ctx.violation("%s:c-does-not-compile" % r.key, "the C emitted for `%s` is rejected by gcc: %s" % (r.ins, why),
                           {"wat": text_fn([r]), "outcome": why})
-    calls = []
-    for r in m.rows:
-        for args in (calls_fn or R.calls_for)(r, ctx.tier):
-            calls.append((r, args))
-    ref = run_ref(ctx, h, m, calls, mode)
-    outs = {}
-    for fl in flavours:
-        exe = build_flavour(m, fl)
-        outs[fl] = run_c(m, exe, calls, mode)
-    m.exes = dict((f, "drv_" + f.replace("-", "_")) for f in flavours)
     dist["rows_" + tag] = len(m.rows)
     dist["calls_" + tag] = len(calls)
     for i, (r, args) in enumerate(calls):
@@ -341,6 +348,76 @@ def generated_ctl(ctx, h, flavours, dist, nontrivial):
             nontrivial.add(("gen-ctl", GC.risk_key(f), f.result, len(f.params)))
     dist["calls_gen_ctl"] = ncalls
     dist["gen_ctl"] = {"functions": len(fns), "translated": len(keep), "feature_counts": feat}
+
+
+# ------------------------------------------------------------------ data segments (gen/c03_data.py)
+def data_stream(ctx, h, flavours, dist, nontrivial):
+    """deterministic data-segment stream: every byte-class adjacency, all 256 bytes, several / adjacent / empty segments; the initial memory
+    of the compiled C is read back byte by byte and compared with the bytes of the WAT data (and with wazero)"""
+    from gen import c03_data as GD
+    wat, expect, where = GD.build()
+    d = os.path.join(ctx.tmp, "data_stream")
+    os.makedirs(d, exist_ok=True)
+    with open(os.path.join(d, "mod.wat"), "w") as f:
+        f.write(wat)
+    rc, out, _ = _run_in(h, ["wat2c", "mod.wat", PREFIX, "mod.c", "mod.h"], d)
+    if rc != 0:
+        ctx.violation("data-segment:translation-fails", "wat2c fails on the data-segment module: %s" % out.strip()[:200], {"wat": wat, "wat2c": out.strip()})
+        return
+    peek = CF("peek", ["i32"], "i32")
+    m = Mod()
+    m.tag, m.dir, m.rows, m.index = "data_stream", d, [peek], {"peek": 0}
+    addrs = sorted(expect)
+    calls = [(peek, (a,)) for a in addrs]
+    dist["calls_data_stream"] = len(calls)
+    ref = run_ref(ctx, h, m, calls, "n")
+    segline = lambda a: "segment `%s` at %d: \"%s\"" % (where[a][0], where[a][1], GD.wat_string(where[a][2])[:160])
+
+    def first_per_segment(got, what):
+        """the first differing byte of every segment (the following differences are usually its consequences)"""
+        seen, out = set(), []
+        for a, g in zip(addrs, got):
+            want = "v %016x" % expect[a]
+            if g != want and where[a][0] not in seen:
+                seen.add(where[a][0])
+                prev = expect.get(a - 1) if (a - 1) in expect and where[a - 1][0] == where[a][0] else None
+                out.append((a, prev, want, g))
+        return out
+    for a, prev, want, g in first_per_segment(ref, "wazero"):
+        # the WAT parser / engine, not wat2c, disagrees with the bytes written in the module text: not C03's subject, but the comparison below would be void
+        ctx.proof["broken"].append({"theorem": "correspondence: data-segment expectation vs wazero", "why": "byte %d of %s: WAT text says %s, wazero memory %s" % (
+            a, segline(a), want, g)})
+    errs = D.compile_errors(d)
+    if errs:
+        stmt = open(os.path.join(d, "mod.c")).read().splitlines()[errs[0][0] - 1].strip()
+        ctx.violation("data-segment:c-does-not-compile", "the C emitted for the data segments is rejected by gcc: %s  [%s]" % (errs[0][1], stmt[:200]),
+                      {"wat": wat, "errors": errs[:5]})
+        return
+    with open(os.path.join(d, "driver.c"), "w") as f:
+        f.write(D.driver_source([peek], PREFIX, 1, 1, has_memory=True))
+    for fl in flavours:
+        ok, log = D.compile_c(d, fl, "drv_" + fl.replace("-", "_"), trap=True)
+        if not ok:        # e.g. clang: hex escape sequence out of range is an error
+            ctx.violation("data-segment:c-does-not-compile", "the C emitted for the data segments is rejected by %s: %s" % (
+                fl, " | ".join(l for l in log.splitlines() if "error" in l)[:300]), {"wat": wat, "compiler": fl, "log": log[-1500:]})
+            continue
+        got = run_c(m, "drv_" + fl.replace("-", "_"), calls, "n")
+        for a, prev, want, g in first_per_segment(got, fl):
+            nxt = expect.get(a + 1) if (a + 1) in expect and where[a + 1][0] == where[a][0] else None
+            if GD.class_of(expect[a]) == "nonprintable" and nxt is not None:
+                prev = None      # an escaped byte came out wrong: what matters is the byte FOLLOWING it (absorbed into the escape)
+                cls = "%s-then-%s" % (GD.class_of(expect[a]), GD.class_of(nxt))
+            else:
+                cls = "%s-then-%s" % ("start" if prev is None else GD.class_of(prev), GD.class_of(expect[a]))
+            dist["disagreements"] = dist.get("disagreements", 0) + 1
+            ctx.violation("data-segment:%s" % cls, "initial memory of the compiled C (%s) differs from the WAT data at address %d (byte 0x%02x %s) of %s: C has `%s`" % (
+                fl, a, expect[a], ("followed by byte 0x%02x" % nxt) if (prev is None and nxt is not None and GD.class_of(expect[a]) == "nonprintable") else
+                ("at the segment start" if prev is None else "after byte 0x%02x" % prev), segline(a), g),
+                {"wat": "(module\n  (memory 1)\n  (data (i32.const %d) \"%s\")\n  (func (export \"f_peek\") (param i32) (result i32) local.get 0 i32.load8_u))\n" % (
+                    where[a][1], GD.wat_string(where[a][2])), "address": a, "expected_byte": expect[a], "c": {fl: g}, "class_pair": cls})
+    for a in addrs:
+        if (a - 1) in expect and where[a - 1][0] == where[a][0]:
+            nontrivial.add(("data", GD.class_of(expect[a - 1]), GD.class_of(expect[a])))
 
 
 # ------------------------------------------------------------------ whole modules produced by the real Wa compiler
@@ -518,8 +595,12 @@ def model_correspondence(ctx, model, mods, modelled, dist):
             if r.name in modelled:
                 lines.append("%s %s %s %s" % (r.name, mode, r.key, " ".join(hx(a) for a in args)))
                 meta.append((r, args, ref[i], dict((fl, outs[fl][i]) for fl in outs)))
-    _, mo, _ = ctx.run_bin(model, input_text="\n".join(lines) + "\n", timeout=1800)
-    mo = mo.splitlines()
+    nch = 8
+    size = (len(lines) + nch - 1) // nch
+    chunks = [lines[i:i + size] for i in range(0, len(lines), size)]
+    with cf.ThreadPoolExecutor(nch) as pool:      # the compiled model is a pure line filter: run it over 8 slices at once
+        outs = list(pool.map(lambda ch: ctx.run_bin(model, input_text="\n".join(ch) + "\n", timeout=1800)[1].splitlines(), chunks))
+    mo = [l for o in outs for l in o]
     if len(mo) != len(lines):
         ctx.proof["broken"].append({"theorem": "correspondence C03", "why": "model driver printed %d lines for %d ops" % (len(mo), len(lines))})
         return
@@ -606,14 +687,18 @@ def run(ctx):
     fl_int = ["gcc-O0", "gcc-O0-ubsan"] + (["clang-O2-ubsan", "gcc-O2"] if thorough else [])
     fl_other = ["gcc-O0"] + (["clang-O2-ubsan", "gcc-O2"] if thorough else [])
     is_int_const = lambda r: r.cls == "const" and r.result in ("i32", "i64")
+    grow_text = lambda rs: "(module\n  (memory 1 %d)\n%s\n)\n" % (R.GROW_MAX, "\n".join("  " + r.wat() for r in rs))
+    specs = [("int", [r for r in rows if r.cls == "int" or is_int_const(r)], "n", fl_int, None, 1),
+             ("float", [r for r in rows if r.cls == "float" or (r.cls == "const" and not is_int_const(r))], "n", fl_other, None, 1),
+             ("mem", [r for r in rows if r.cls == "mem"], "m", fl_other, None, 1),
+             ("grow", R.GROW_ROWS, "g", fl_other, grow_text, R.GROW_MAX)]
+    with cf.ThreadPoolExecutor(4) as pool:          # the four module classes are independent: translate, compile and run them concurrently
+        futs = [pool.submit(grid_exec, ctx, h, tag, rs, mode, fls, tf, 1, mp) for tag, rs, mode, fls, tf, mp in specs]
+        results = [f.result() for f in futs]
     mods = {}
-    mods["int"] = grid_module(ctx, h, "int", [r for r in rows if r.cls == "int" or is_int_const(r)], "n", fl_int, dist, nontrivial, samples)
-    mods["float"] = grid_module(ctx, h, "float", [r for r in rows if r.cls == "float" or (r.cls == "const" and not is_int_const(r))], "n", fl_other,
-                                dist, nontrivial, samples)
-    mods["mem"] = grid_module(ctx, h, "mem", [r for r in rows if r.cls == "mem"], "m", fl_other, dist, nontrivial, samples)
-    mods["grow"] = grid_module(ctx, h, "grow", R.GROW_ROWS, "g", fl_other, dist, nontrivial, samples,
-                               text_fn=lambda rs: "(module\n  (memory 1 %d)\n%s\n)\n" % (R.GROW_MAX, "\n".join("  " + r.wat() for r in rs)),
-                               pages=1, maxpages=R.GROW_MAX)
+    for (tag, rs, mode, fls, tf, mp), res in zip(specs, results):
+        grid_report(ctx, tag, res, fls, dist, nontrivial, samples, tf)
+        mods[tag] = res
     lap("instruction_grids")
     # ---- regenerated templates + proofs
     tpls, names = regenerate_templates(ctx, mods)
@@ -626,20 +711,21 @@ def run(ctx):
         ctx.proof["broken"].append({"theorem": "C03 template row set", "why": "rows with a modelled template differ from the rows the theorems cover: "
                                     "no theorem for %s; theorem without template for %s (re-run tools/gen_c03_props.py)" % (
                                         sorted(want_rows - proved_rows)[:8], sorted(proved_rows - want_rows)[:8])})
-    ok, log = ctx.lake_build(GP.modules())          # the row proofs, in parallel
-    prove_audited(ctx, "WaVerif.Props.C03", sorted(re.findall(r"^theorem (\w+) ", src, re.M)), BV_AX)
-    lap("lean_proofs_and_audit")
-    model = ctx.build_model("c03")
-    if model:
-        model_correspondence(ctx, model, mods, set(names), dist)
-    replay_witnesses(ctx, h, mods, fl_int, dist)
-    lap("model_correspondence")
-    # ---- control flow / calls / tables / globals / data segments: hand-written modules, executed only
-    for tag in sorted(CORPUS_MODULES):
-        corpus_module(ctx, h, tag, fl_other, dist, nontrivial)
-    generated_ctl(ctx, h, fl_other, dist, nontrivial)
-    lap("corpus_and_generated_control_flow")
-    # ---- whole modules produced by the real compiler
+    lean_err = []
+
+    def lean_job():
+        try:
+            ctx.lake_build(GP.modules())          # the row proofs, in parallel
+            prove_audited(ctx, "WaVerif.Props.C03", sorted(re.findall(r"^theorem (\w+) ", src, re.M)), BV_AX)
+            model = ctx.build_model("c03")
+            if model:
+                model_correspondence(ctx, model, mods, set(names), dist)
+        except BaseException as e:        # re-raised in the main thread
+            lean_err.append(e)
+    import threading
+    lean_thread = threading.Thread(target=lean_job)       # Lean (lake, audit, model run) overlaps with the C side below
+    lean_thread.start()
+    # ---- whole modules produced by the real compiler: started now, collected below
     cdir = os.path.join(vlib.VERIF, "corpus", "C03")
     progs = [(f[:-3], os.path.join(cdir, f)) for f in sorted(os.listdir(cdir)) if f.endswith(".wa")]
     ex = os.path.join(vlib.REPO, "waroot", "examples")
@@ -647,8 +733,18 @@ def run(ctx):
     for n in (exnames if thorough else exnames[:3]):
         if os.path.exists(os.path.join(ex, n + ".wa")):
             progs.append(("ex_" + n.replace("-", "_"), os.path.join(ex, n + ".wa")))
-    with cf.ThreadPoolExecutor(8) as pool:
-        pres = list(pool.map(lambda a: whole_program(ctx, h, a[0], a[1], fl_other), progs))
+    prog_pool = cf.ThreadPoolExecutor(6)
+    prog_futs = [prog_pool.submit(whole_program, ctx, h, a[0], a[1], fl_other) for a in progs]
+    replay_witnesses(ctx, h, mods, fl_int, dist)
+    lap("witness_replay")
+    # ---- control flow / calls / tables / globals / data segments: hand-written modules, generated functions, data-segment stream
+    for tag in sorted(CORPUS_MODULES):
+        corpus_module(ctx, h, tag, fl_other, dist, nontrivial)
+    generated_ctl(ctx, h, fl_other, dist, nontrivial)
+    data_stream(ctx, h, fl_other, dist, nontrivial)
+    lap("corpus_generated_control_flow_and_data")
+    pres = [f.result() for f in prog_futs]
+    prog_pool.shutdown()
     dist["whole_programs"] = {}
     first_ok = None
     for (name, path), r in zip(progs, pres):
@@ -673,7 +769,11 @@ def run(ctx):
         if not ok:
             ctx.violation("native-host:missing-host-functions", "the translated module does not link against appbuild's own assets (native.cpp + native-js-host.cpp, "
                           "as the generated CMakeLists.txt builds them): %s" % detail, {"program": first_ok, "link_errors": detail})
-    lap("whole_programs")
+    lap("whole_programs_tail")
+    lean_thread.join()
+    if lean_err:
+        raise lean_err[0]
+    lap("lean_tail")
     dist["phase_seconds"] = phases
     cov = {"evaluations": sum(v for k, v in dist.items() if k.startswith("calls_")) + len(progs), "distinct_nontrivial": len(nontrivial),
            "rule": "per-instruction grid: distinct (instruction, operand class, WebAssembly outcome kind) triples over boundary x boundary operands "
